@@ -304,6 +304,9 @@ func (e *Engine) globalInit(p *Path, g *ssa.Global) Value {
 	if g.Pkg == nil {
 		return &TopV{"global"}
 	}
+	if strings.HasSuffix(g.Name(), "init$guard") {
+		return False // package initialisers are interpreted from the uninitialised state
+	}
 	var val ssa.Value
 	stores := 0
 	for _, m := range g.Pkg.Members {
